@@ -542,6 +542,8 @@ class DEVSSimulator(Simulator[TIME], Generic[TIME]):
                 "Did you call super.__init__(...) in the model constructor?")
         if not isinstance(replication, ReplicationInterface):
             raise DSOLError(f"replication {replication} not valid")
+        if not replication.warmup_sim_time >= replication.start_sim_time:
+            raise DSOLError(f"replication {replication} has its warmup time before its start time")
         self._eventlist.clear()
         super().initialize(model, replication)
         # schedule warmup BEFORE events at warmup time
